@@ -17,65 +17,6 @@ namespace Lasio.Dt
 
 /-! ### 1. rectangular -/
 
-def Rect (cols : List Column) : Prop := ∃ L, ∀ c ∈ cols, c.length = L
-
-theorem normalEngineLines_rect (ft : FloatTable) (sb : Subs) (dlm : Dlm) (n : Nat) (body : List Str) (cols : List Column)
-    (h : normalEngineLines ft sb dlm n body = .ok cols) : Rect cols := by
-  unfold normalEngineLines at h
-  generalize normalTokens sb dlm body = toks at h
-  by_cases he : toks.isEmpty = true
-  · simp [he] at h; subst h; exact ⟨0, by simp⟩
-  · simp only [he, Bool.false_eq_true, ↓reduceIte] at h
-    split at h
-    · split at h
-      · simp at h
-      · simp only [Except.ok.injEq] at h
-        subst h
-        refine ⟨(reshape n toks).length, ?_⟩
-        intro c hc
-        simp only [List.mem_map] at hc
-        obtain ⟨col, hcol, rfl⟩ := hc
-        rw [typedColumn_length]
-        exact mem_columnsOf_length _ _ col hcol
-    · simp at h
-
-theorem numpyEngineLines_rect (ft : FloatTable) (maxRows : Nat) (rest : List Str) (cols : List Column)
-    (h : numpyEngineLines ft maxRows rest = some cols) : Rect cols := by
-  unfold numpyEngineLines at h
-  split at h
-  · simp at h
-  · split at h
-    · simp only [Option.some.injEq] at h; subst h
-      exact ⟨0, by simp [Column.length]⟩
-    · rename_i c _
-      split at h
-      · simp at h
-      · rename_i rows _
-        have := allFloatCols_eq ft _ cols h
-        subst this
-        refine ⟨rows.length, ?_⟩
-        intro col hc
-        simp only [List.mem_map] at hc
-        obtain ⟨x, hx, rfl⟩ := hc
-        rw [typedColumn_length]
-        exact mem_columnsOf_length _ _ x hx
-
-theorem assignCurves_rect (d : Nat) (cols : List Column) (h : Rect cols) :
-    ∀ sc ∈ assignCurves d cols, sc.2.length = curveLength cols := by
-  obtain ⟨L, hL⟩ := h
-  intro sc hsc
-  simp only [assignCurves, List.mem_append, List.mem_map] at hsc
-  rcases hsc with hsc | ⟨j, _, rfl⟩
-  · have hmem : sc.2 ∈ cols := by
-      have : sc.2 ∈ (assignFrom d 0 cols).map Prod.snd := List.mem_map_of_mem hsc
-      rwa [assignFrom_snd] at this
-    cases cols with
-    | nil => simp at hmem
-    | cons c cs =>
-      simp only [curveLength]
-      rw [hL _ hmem, hL c (by simp)]
-  · simp [nanColumn, Column.length]
-
 /-- After any successful read all curves have the same length. -/
 theorem C07_rect (o : DataOpts) (lines : List Str) (first last : Nat) (st : Steer) (d : Nat) (ft : FloatTable)
     (e : Engine) (curves : List (Slot × Column))
@@ -110,33 +51,13 @@ theorem C07_rect (o : DataOpts) (lines : List Str) (first last : Nat) (st : Stee
 
 /-! ### 2. binding of cells to curves -/
 
-/-- the r × c matrix as typed columns: column j holds the j-th entry of every row -/
-def matrixColumns (ft : FloatTable) (c : Nat) (rows : List (List Str)) : List Column :=
-  (List.range c).map fun j => typedColumn ft (rows.map fun r => r.getD j [])
-
-theorem matrixColumns_eq (ft : FloatTable) (c : Nat) (rows : List (List Str)) :
-    matrixColumns ft c rows = (columnsOf c rows).map (typedColumn ft) := by
-  simp [matrixColumns, columnsOf, columnOf]
-
 /-- Normal engine, `n_columns = c`, flat token sequence = the row-major flattening of an r × c matrix (r ≥ 1, c ≥ 1):
-the result is the c columns of the matrix, column j = the j-th entries of the rows. -/
+the result is the c columns of the matrix, column j = the j-th entries of the rows (`matrixColumns`, Lemmas/DataLemmas.lean). -/
 theorem C07_binding (ft : FloatTable) (sb : Subs) (dlm : Dlm) (body : List Str) (rows : List (List Str)) (c : Nat)
     (hc : 0 < c) (hr : rows ≠ []) (hrows : ∀ r ∈ rows, r.length = c)
     (htoks : normalTokens sb dlm body = rows.flatten) :
-    normalEngineLines ft sb dlm c body = .ok (matrixColumns ft c rows) := by
-  unfold normalEngineLines
-  simp only [htoks]
-  have hlen := length_flatten_eq c rows hrows
-  have hne : rows.flatten.isEmpty = false := by
-    cases rows with
-    | nil => exact absurd rfl hr
-    | cons r rs =>
-      have : r.length = c := hrows r (by simp)
-      cases r with
-      | nil => simp at this; omega
-      | cons a t => rfl
-  simp only [hne, Bool.false_eq_true, ↓reduceIte, hc, hlen, Nat.mul_mod_left, bne_self_eq_false]
-  rw [reshape_flatten c hc rows hrows, matrixColumns_eq]
+    normalEngineLines ft sb dlm c body = .ok (matrixColumns ft c rows) :=
+  normalEngineLines_matrix ft sb dlm body rows c hc hr hrows htoks
 
 /-- unwrapped layout: body line i tokenises to row i -/
 theorem C07_binding_lines (ft : FloatTable) (sb : Subs) (dlm : Dlm) (body : List Str) (rows : List (List Str)) (c : Nat)
@@ -339,35 +260,35 @@ theorem C07_binding_assigned (ft : FloatTable) (sb : Subs) (dlm : Dlm) (body : L
 
 /-! ### hypotheses are necessary, non-vacuity -/
 
-def tf (s : String) : Str := s.toList
+def c07s (s : String) : Str := s.toList
 
-def ft6 : FloatTable := [(tf "0", tf "a0"), (tf "1", tf "a1"), (tf "2", tf "a2"), (tf "1000", tf "b0"), (tf "1001", tf "b1"), (tf "1002", tf "b2")]
+def ft6 : FloatTable := [(c07s "0", c07s "a0"), (c07s "1", c07s "a1"), (c07s "2", c07s "a2"), (c07s "1000", c07s "b0"), (c07s "1001", c07s "b1"), (c07s "1002", c07s "b2")]
 
 /-- 2 × 3 matrix with cells 1000·i + j, two declared curves: the third column becomes an extra curve -/
-example : readData ⟨.normal, .strict⟩ [tf "~A\n", tf "0 1 2\n", tf " 1000\t1001  1002 \n"] 0 2 ⟨true, tf "NO", none, .space⟩ 2 ft6
-    = .ok (.normal, [(.declared 0, .floats [tf "a0", tf "b0"]), (.declared 1, .floats [tf "a1", tf "b1"]),
-                     (.extra, .floats [tf "a2", tf "b2"])]) := by rfl
+example : readData ⟨.normal, .strict⟩ [c07s "~A\n", c07s "0 1 2\n", c07s " 1000\t1001  1002 \n"] 0 2 ⟨true, c07s "NO", none, .space⟩ 2 ft6
+    = .ok (.normal, [(.declared 0, .floats [c07s "a0", c07s "b0"]), (.declared 1, .floats [c07s "a1", c07s "b1"]),
+                     (.extra, .floats [c07s "a2", c07s "b2"])]) := by rfl
 
 /-- the same through the numpy engine -/
-example : readData ⟨.numpy, .strict⟩ [tf "~A\n", tf "0 1 2\n", tf " 1000\t1001  1002 \n"] 0 2 ⟨true, tf "NO", none, .space⟩ 2 ft6
-    = .ok (.numpy, [(.declared 0, .floats [tf "a0", tf "b0"]), (.declared 1, .floats [tf "a1", tf "b1"]),
-                    (.extra, .floats [tf "a2", tf "b2"])]) := by rfl
+example : readData ⟨.numpy, .strict⟩ [c07s "~A\n", c07s "0 1 2\n", c07s " 1000\t1001  1002 \n"] 0 2 ⟨true, c07s "NO", none, .space⟩ 2 ft6
+    = .ok (.numpy, [(.declared 0, .floats [c07s "a0", c07s "b0"]), (.declared 1, .floats [c07s "a1", c07s "b1"]),
+                    (.extra, .floats [c07s "a2", c07s "b2"])]) := by rfl
 
 /-- four declared curves, three columns: the fourth curve is NaN of the common length -/
-example : readData ⟨.normal, .strict⟩ [tf "~A\n", tf "0 1 2\n", tf "1000 1001 1002\n"] 0 2 ⟨true, tf "NO", none, .space⟩ 4 ft6
-    = .ok (.normal, [(.declared 0, .floats [tf "a0", tf "b0"]), (.declared 1, .floats [tf "a1", tf "b1"]),
-                     (.declared 2, .floats [tf "a2", tf "b2"]), (.declared 3, .floats [nanTxt, nanTxt])]) := by rfl
+example : readData ⟨.normal, .strict⟩ [c07s "~A\n", c07s "0 1 2\n", c07s "1000 1001 1002\n"] 0 2 ⟨true, c07s "NO", none, .space⟩ 4 ft6
+    = .ok (.normal, [(.declared 0, .floats [c07s "a0", c07s "b0"]), (.declared 1, .floats [c07s "a1", c07s "b1"]),
+                     (.declared 2, .floats [c07s "a2", c07s "b2"]), (.declared 3, .floats [nanTxt, nanTxt])]) := by rfl
 
 /-- wrapped layout: the depth steps re-partitioned over physical lines, three declared curves -/
-example : readData ⟨.numpy, .strict⟩ [tf "~A\n", tf "0\n", tf "1 2\n", tf "1000 1001\n", tf "1002\n"] 0 4 ⟨true, tf "YES", none, .space⟩ 3 ft6
-    = .ok (.normal, [(.declared 0, .floats [tf "a0", tf "b0"]), (.declared 1, .floats [tf "a1", tf "b1"]),
-                     (.declared 2, .floats [tf "a2", tf "b2"])]) := by rfl
+example : readData ⟨.numpy, .strict⟩ [c07s "~A\n", c07s "0\n", c07s "1 2\n", c07s "1000 1001\n", c07s "1002\n"] 0 4 ⟨true, c07s "YES", none, .space⟩ 3 ft6
+    = .ok (.normal, [(.declared 0, .floats [c07s "a0", c07s "b0"]), (.declared 1, .floats [c07s "a1", c07s "b1"]),
+                     (.declared 2, .floats [c07s "a2", c07s "b2"])]) := by rfl
 
 /-- `n_columns = c` is necessary in `C07_binding`: when the sniffer cannot tell (ragged sample) the DECLARED count is used, and a
 6-token section with 2 declared curves is cut into 3 rows of 2 — columns are then not the columns of the file -/
 theorem C07_ncolumns_needed :
-    readData ⟨.normal, .strict⟩ [tf "~A\n", tf "0 1 2 1000\n", tf "1001 1002\n"] 0 2 ⟨true, tf "NO", none, .space⟩ 2 ft6
-    = .ok (.normal, [(.declared 0, .floats [tf "a0", tf "a2", tf "b1"]), (.declared 1, .floats [tf "a1", tf "b0", tf "b2"])]) := by
+    readData ⟨.normal, .strict⟩ [c07s "~A\n", c07s "0 1 2 1000\n", c07s "1001 1002\n"] 0 2 ⟨true, c07s "NO", none, .space⟩ 2 ft6
+    = .ok (.normal, [(.declared 0, .floats [c07s "a0", c07s "a2", c07s "b1"]), (.declared 1, .floats [c07s "a1", c07s "b0", c07s "b2"])]) := by
   rfl
 
 end Lasio.Dt
